@@ -51,8 +51,8 @@ PL_KW = {"lw": ["2", "1/2"], "ls": ["--", ":"], "alpha": ["1/2", "1/4"], "marker
 FIELD_VALUES = {
     "mode": ["image", "contourf", "contour"],
     "norm": ["log", "linear", "LOG", "symlog", "Linear"],
-    "vmin": ["1/2", "1", "1/4"],
-    "vmax": ["8", "16", "4"],
+    "vmin": ["1/2", "1/8", "1/4"],          # below every value a layer can show ...
+    "vmax": ["64", "128", "256"],           # ... and above the smallest one: any pair renders
     "bins": ["4", "7", "12"],
     "weights": ["mass", "density", "temperature"],
 }
@@ -292,6 +292,11 @@ def check_sequence(osy, case, model, spec, steps, refs, out=None):
         # ---------------- errors
         merr = m["out"]["err"]
         serr = s["out"]["err"]
+        if plot_lane and merr is None and serr is None and res["err"] and (res["err"] == "ValueErr" or res["err"].startswith("Other")):
+            # matplotlib refused to draw (limits vs data, an option the artist does not take): not an option-handling
+            # outcome; the frame checks above still apply
+            stats["render_errors"] = stats.get("render_errors", 0) + 1
+            continue
         if (res["err"] or None) != merr and not (res["err"] and merr and res["err"].startswith("Other")):
             dis.append((case, f"{tag}: impl error {res['err']} ({res.get('msg', '')}) vs model {merr}"))
         if res["err"] is None and serr is not None or (res["err"] is not None and serr is None):
@@ -352,6 +357,11 @@ def check_sequence(osy, case, model, spec, steps, refs, out=None):
                 else:
                     obs = {"mode": lo["mode"], "norm": lo["norm"], "params": lo["params"]}
                     want = {"mode": ro["fields"]["mode"], "norm": ro["norm"], "params": ro["params"]}
+                    if call.get("plot") and isinstance(obs["norm"], dict) and isinstance(want["norm"], dict) and "cls" in want["norm"]:
+                        # once rendered, the limits of the norm object belong to matplotlib (autoscaling fills the open
+                        # ones, the colorbar widens a singular range): only its class is compared in this lane
+                        obs["norm"] = {"cls": obs["norm"].get("cls")}
+                        want = dict(want, norm={"cls": want["norm"]["cls"]})
                 for q in obs:
                     if obs[q] != want[q]:
                         _report(which, viol, dis, case, k, site, fn, q,
@@ -584,8 +594,8 @@ def gen_sequence(r, tier, plot_lane=False, malformed=False):
         if fn == "map":
             thick = r.random() < 0.65
             res = r.choice(["shared", "shared", "shared", 4, 8, None]) if case["res"] is not None else r.choice([4, 8, 16, None])
-            if res is None and thick:
-                res = 8
+            if thick and (res is None or (res == "shared" and not case["res"])):
+                res = 8                  # 256 x 256 pixels times a derived depth of 256 samples is only slow
             call = {"fn": "map", "layers": ls, "opts": r.choice([0, 0, 0, None]), "res": res, "dx": r.choice(["a", "a", "b", "d"]),
                     "dz": r.choice(["a", "b", "c", "d"]) if thick else None, "origin": True,
                     "direction": r.choice(["z", "z", "x", "y"]), "plot": plot_lane}
@@ -617,10 +627,25 @@ def gen_sequence(r, tier, plot_lane=False, malformed=False):
             call = {"fn": "scatter", "x": xy[0], "y": xy[1], "opts": r.choice([2, 2, None]),
                     "color": r.choice([None, "r", "arr:mass", "arr:temperature"]),
                     "size": r.choice([None, "3", "arr:dx" if xy[0].startswith("position") else "5"])}
+            if call["size"] == "arr:dx" and any(k == "marker" for k, _ in case["optdicts"][2]["kwargs"]):
+                call["size"] = "3"      # sizes with a unit are drawn as a PatchCollection, which takes no marker
         else:
             xy = r.choice([("position.x", ["position.y"]), ("position.x", ["position.y", "position.z"]), ("density", ["mass"]), ("mass", [])])
             call = {"fn": "plot", "x": xy[0], "ys": xy[1], "opts": r.choice([3, 3, None])}
         case["calls"].append(call)
+    # the level at which every option of every Layer actually ends up (for the distribution in the evidence)
+    levels = {}
+    for i, l in enumerate(case["layers"]):
+        lv = {}
+        lo = l["opts"]
+        for f in ("mode", "norm", "vmin", "vmax", "operation", "bins", "weights"):
+            co = case["optdicts"][1 if f in ("bins", "weights") else 0]
+            lv[f] = LEVELS[(1 if lo.get(f) is not None else 0) + (2 if co.get(f) is not None else 0)]
+        lk = {k for k, _ in lo.get("kwargs") or []}
+        ck = {k for k, _ in case["optdicts"][0].get("kwargs") or []}
+        for k in sorted(lk | ck):
+            lv["kw:" + k] = LEVELS[(1 if k in lk else 0) + (2 if k in ck else 0)]
+        levels[f"layer{i}"] = lv
     case["levels"] = levels
     return case
 
@@ -779,14 +804,14 @@ def run(ctx):
 
     # ---------------- lane 2: sequences of plotting calls sharing argument objects
     r = ctx.rng
-    nseq = 60 if not thorough else 500
+    nseq = 60 if not thorough else 600
     cases = corpus()
     for _ in range(nseq):
         cases.append(gen_sequence(r, ctx.tier))
     for _ in range(8 if not thorough else 60):
         cases.append(gen_sequence(r, ctx.tier, malformed=True))
     if thorough:
-        for _ in range(120):
+        for _ in range(160):
             cases.append(gen_sequence(r, ctx.tier, plot_lane=True))
     probe = impl.Probe()
     refs = Refs(osy)
